@@ -426,6 +426,53 @@ func c19a(c *Ctx) {
 		},
 		chT: chT,
 	}, 0)
+	// G. positions written through a pointer (a helper that "finishes" a token it is handed): the
+	// typestate does not follow the token into the helper, but what is stored must still be one
+	// of the lexer's counters of the right kind — byte columns from the byte counters, character
+	// columns from the character counters, ends from the prev* counters after the token was
+	// read — never something computed from the literal's length (bytes are not characters)
+	for _, hf := range c.W.FuncsOf("lexer") {
+		if isTestFunc(c.W, hf) {
+			continue
+		}
+		nPtr := 0
+		instrs(hf, func(in ssa.Instruction) {
+			st, ok := in.(*ssa.Store)
+			if !ok {
+				return
+			}
+			base, t, f, ok := fieldAddrOf(st.Addr)
+			if !ok || !typeIs(t, "token", "Token") {
+				return
+			}
+			if _, isPar := base.(*ssa.Parameter); !isPar {
+				return
+			}
+			if !strings.HasSuffix(f, "CharIndex") && !strings.HasSuffix(f, "LineNumber") {
+				return
+			}
+			nPtr++
+			vt := c.term(hf, st.Val)
+			cu := parseCounter(vt)
+			key := fmt.Sprintf("%s/through-pointer/%s#%d", hf.Name(), f, nPtr)
+			okFam := cu.ok
+			if cu.ok {
+				switch {
+				case strings.HasSuffix(f, "LineNumber"):
+					okFam = cu.fam == "line"
+				case f == "StartCharIndex":
+					okFam = cu.fam == "char" || cu.fam == "prevchar"
+				case f == "StartUtf8CharIndex":
+					okFam = cu.fam == "utf8" || cu.fam == "prevutf8"
+				case f == "EndCharIndex":
+					okFam = cu.fam == "prevchar" || cu.fam == "char"
+				case f == "EndUtf8CharIndex":
+					okFam = cu.fam == "prevutf8" || cu.fam == "utf8"
+				}
+			}
+			c.Check(okFam, key, c.W.Pos(st.Pos()), "a position stored through a token pointer is a lexer counter of the field's kind", hf.Name()+" sets "+f+" of the token it is handed to "+pretty(vt)+", which is not a position counter of that kind (a column computed from the literal's length counts bytes, and is wrong for characters of more than one byte)")
+		})
+	}
 	c.Check(nCalls >= 10 && nStores >= 40, "NextToken/sites", c.W.FuncPos(fn), fmt.Sprintf("%d single-char sites, %d position stores", nCalls, nStores), fmt.Sprintf("found %d single-char sites and %d position stores; 16 and 60 were confirmed by hand", nCalls, nStores))
 	// E. readStringToken: start at the opening quote
 	{
@@ -681,6 +728,26 @@ func c19b(c *Ctx) {
 		}
 	}
 	c.Check(okWidth && eofRead && sawZero, "readChar/width-is-decoded-size", c.W.FuncPos(fn), "width is 0 at end of input, else the decoded size", "cannot identify the decoded width")
+	// the current character is the character that was decoded — as it is: 0 at end of input, else
+	// the rune DecodeRuneInString reports (a '\r' turned into '\n' would count lines twice in a
+	// CRLF file and change what strings and raw blocks contain)
+	{
+		okCh, nCh := true, 0
+		whyCh := ""
+		for _, st := range storesToField(fn, "lexer", "Lexer", "ch") {
+			nCh++
+			for _, a := range c.resultAlts(fn, st.Val) {
+				switch {
+				case a.term == decoded+"0":
+				case a.term == "0":
+				default:
+					okCh = false
+					whyCh = "readChar can set the current character to " + pretty(a.term) + ", which is neither the decoded rune nor the end-of-input 0"
+				}
+			}
+		}
+		c.Check(okCh && nCh == 1, "readChar/ch-is-the-decoded-rune", c.W.FuncPos(fn), "the current character is the decoded rune, unchanged", whyCh+fmt.Sprintf(" (%d stores to ch)", nCh))
+	}
 	// end-of-input test agrees
 	// at end of input nothing but 0 can come back: every other result is produced inside the input
 	eofPeek, okDecode := true, false
@@ -705,6 +772,38 @@ func c19c(c *Ctx) {
 	sl := c.Fn("lexer.Lexer.skipToNextLine")
 	if fn == nil || sw == nil || sl == nil {
 		return
+	}
+	// a comment ends with its line: after the loop that reads up to the line feed (or the end of
+	// input) skipToNextLine reads that one character and nothing more — no second line, no call of
+	// itself (a comment ending in a backslash must not swallow the next line's tokens)
+	if rc := c.Fn("lexer.Lexer.readChar"); rc != nil {
+		var head *ssa.BasicBlock
+		for _, b := range sl.Blocks {
+			if isLoopHeader(b) {
+				head = b
+			}
+		}
+		okTail, why := head != nil, "skipToNextLine has no loop"
+		if head != nil {
+			body := loopBody(head)
+			nRead := 0
+			for _, ci := range callsIn(sl) {
+				if body[ci.Block()] {
+					continue
+				}
+				g := callee(ci)
+				switch {
+				case g == rc:
+					nRead++
+				case g != nil && c.W.InRepo(g) && c.T(sl).purity(g) < purReadOnly:
+					okTail, why = false, "after the line is read skipToNextLine calls "+g.Name()+": more than the comment's own line is consumed"
+				}
+			}
+			if okTail && nRead != 1 {
+				okTail, why = false, fmt.Sprintf("after its loop skipToNextLine calls readChar %d times, expected exactly once (the line feed)", nRead)
+			}
+		}
+		c.Check(okTail, "skipToNextLine/one-line", c.W.FuncPos(sl), "a comment is skipped up to and including its line feed, nothing more", why)
 	}
 	// adjacent string pieces: after a closing quote *all* whitespace (blanks as well as line
 	// breaks) is skipped before the lexer looks for the next opening quote, on every path
